@@ -28,12 +28,14 @@ Record flags := mkflags {
   f_list_dotA : bool;      (* getitem_list_uses_dotA: A[[..],[..]] multiplies self.A instead of self *)
   f_arr_cpu : bool;        (* sliced_index_array_cpu: Sliced calls .cpu() on index arrays (numpy >= 2 arrays have .device) *)
   f_list_empty_err : bool; (* getitem_empty_lists: stack([]) raises ValueError for A[[],[]] *)
+  f_list_zip : bool;       (* getitem_list_zip_truncates: the two lists are paired with zip (the longer one is cut) instead of
+                              numpy's broadcasting (equal lengths, or a list of length 1 repeated; else an error) *)
   f_T_self : bool          (* not a defect flag but a fact read off the implementation per operator: `self.T is self`
                               (cola.fns.transpose returns the operator itself when it isa(SelfAdjoint) and is real).
                               Right when the annotation is true; a wrongly inferred annotation makes A[i] a column. *)
 }.
-Definition pinned : flags := mkflags true true true true false.
-Definition repaired : flags := mkflags false false false false false.
+Definition pinned : flags := mkflags true true true true true false.
+Definition repaired : flags := mkflags false false false false false false.
 
 Definition full : pslice := mkslice None None None.
 (* numpy's rule for one integer index on an axis of length n *)
@@ -45,6 +47,14 @@ Fixpoint norms (l : list Z) (n : nat) : option (list nat) :=
   | [] => Some []
   | z :: r => match norm z n, norms r n with Some a, Some b => Some (a :: b) | _, _ => None end
   end.
+(* np.broadcast_arrays on two 1-D index lists *)
+Definition bcast (li lj : list Z) : option (list Z * list Z) :=
+  if Nat.eqb (length li) (length lj) then Some (li, lj)
+  else match li, lj with
+       | [x], _ => Some (map (fun _ => x) lj, lj)
+       | _, [y] => Some (li, map (fun _ => y) li)
+       | _, _ => None
+       end.
 Definition is_arr (a : ix1) := match a with IArr _ => true | _ => false end.
 Definition is_sa (a : ix1) := match a with ISlice _ | IArr _ => true | _ => false end.   (* slice() | ndarray() *)
 
@@ -115,7 +125,7 @@ Fixpoint list_go (t : op) (li lj : list Z) : err + list R :=
       end
   | _, _ => inr []      (* zip stops at the shorter list *)
   end.
-Definition list_case (fl : flags) (e : op) (li lj : list Z) : res :=
+Definition list_pairs (fl : flags) (e : op) (li lj : list Z) : res :=
   match li, lj with
   | [], _ | _, [] => if f_list_empty_err fl then Err EValue else Vec []
   | _, _ => match list_target fl e with
@@ -123,6 +133,12 @@ Definition list_case (fl : flags) (e : op) (li lj : list Z) : res :=
             | Some t => match list_go t li lj with inl er => Err er | inr r => Vec r end
             end
   end.
+Definition list_case (fl : flags) (e : op) (li lj : list Z) : res :=
+  if f_list_zip fl then list_pairs fl e li lj
+  else match bcast li lj with
+       | None => Err EValue                       (* shape mismatch: np.broadcast_arrays raises ValueError *)
+       | Some (li', lj') => list_pairs fl e li' lj'
+       end.
 Definition col_then (e : op) (b : ix1) (j : Z) : res := match col_of e j with inl er => Err er | inr v => index_vec v b end.
 Definition row_then (fl : flags) (e : op) (i : Z) (b : ix1) : res := match row_of fl e i with inl er => Err er | inr v => index_vec v b end.
 
@@ -161,13 +177,15 @@ Definition spec_two (M : fm (R:=R)) (m n : nat) (a b : ix1) : option sres :=
 Definition spec_index (M : fm (R:=R)) (m n : nat) (q : ix) : option sres :=
   match q with
   | One a => spec_two M m n a (ISlice full)
-  | Two (IList li) (IList lj) =>       (* numpy pairs two index lists element-wise *)
-      if Nat.eqb (length li) (length lj) then
-        match norms li m, norms lj n with
+  | Two (IList li) (IList lj) =>       (* numpy pairs two index lists element-wise, after broadcasting *)
+      match bcast li lj with
+      | Some (li', lj') =>
+        match norms li' m, norms lj' n with
         | Some rs, Some cs => Some (SVec (map (fun p => M (fst p) (snd p)) (combine rs cs)))
         | _, _ => None
         end
-      else None
+      | None => None
+      end
   | Two a b => spec_two M m n a b
   | Other => None
   end.
